@@ -89,6 +89,22 @@ sub vcl_recv {
 	{"hand/describe-broken-hook", "describe s {\n  before_fetch {\n    set = ;\n  }\n}\n"},
 	{"hand/describe-open", "describe s {\n  sub t {\n    esi;\n  }\n  after_log {"},
 	{"hand/describe-words", "sub vcl_recv {\n  set req.http.describe = \"before_recv\";\n  call describe;\n}\nsub describe {\n}\n"},
+	{"hand/hook-words", "sub before_recv {\n  set req.http.after_log = \"describe\";\n}\nsub after_deliver {\n  call before_recv;\n}\nsub vcl_recv {\n  call after_deliver;\n  if (req.http.before_fetch) {\n    call describe;\n  }\n}\nsub describe {\n  esi;\n}\n"},
+	{"hand/bad-escape-1", "sub vcl_recv {\n  set req.http.X = \"Sale: 100% off\";\n  set req.http.Y = \"strict\";\n}\n"},
+	{"hand/bad-escape-2", "sub vcl_recv {\n  set req.http.X = \"abc%zzdef\";\n}\n"},
+	{"hand/bad-escape-3", "sub vcl_recv {\n  set req.http.X = \"partly %41 then %4\";\n  log \"after\";\n}\n"},
+	{"hand/bad-escape-4", "sub vcl_recv {\n  log \"ok %20 fine\";\n  log \"long prefix before the bad one %u12\";\n}\n"},
+	{"hand/bad-escape-5", "sub vcl_recv {\n  set req.http.X = \"%u{110000}\";\n  set req.http.Z = \"z\";\n}\n"},
+	{"hand/bad-escape-6", "table t {\n  \"k%\": \"v\",\n  \"k2\": \"v2\",\n}\n"},
+	{"hand/good-escape-1", "sub vcl_recv {\n  set req.http.X = \"a%20b\";\n  set req.http.Y = \"%u0041%u{1F600}\";\n  log \"plain\";\n}\n"},
+	{"hand/error-forms", "sub vcl_recv {\n  error \"denied\";\n}\n"},
+	{"hand/error-forms-2", "sub vcl_recv {\n  error (601);\n}\n"},
+	{"hand/error-forms-3", "sub vcl_recv {\n  error true;\n}\n"},
+	{"hand/error-forms-4", "sub vcl_recv {\n  error 6.5 \"x\";\n}\n"},
+	{"hand/error-forms-5", "sub vcl_recv {\n  error \"601\" \"x\";\n}\n"},
+	{"hand/error-forms-6", "sub vcl_recv {\n  error 601 + 1;\n}\n"},
+	{"hand/error-forms-7", "sub vcl_recv {\n  error req.http.X;\n}\n"},
+	{"hand/error-forms-8", "sub vcl_recv {\n  error std.atoi(\"601\") \"x\";\n}\n"},
 	{"hand/deep", "sub vcl_recv { if (a) { if (b) { if (c) { if (d) { if (e) { esi; } } } } } }"},
 }
 
